@@ -479,7 +479,7 @@ Proof.
   { apply rpost_ipost; [exact Hc|]. split; cbn [fst snd]; [frame|lia]. }
   apply gspec_bind; [auto with bn|]. intros raw _. cbv zeta. apply gspec_bind; [auto with bn|]. intros m _.
   match goal with |- gspec _ _ (bind (TK ?inner) _) => apply (gspec_bind_g _ cache_ok); [
-    eapply gspec_weaken; [| |apply (T_ok inner)]; [cbn [i_level set_bt iset_bt]; auto|auto|exact Hc] |] end.
+    eapply gspec_weaken; [| |apply (T_ok inner)]; [cbn [i_level set_bt iset_bt]; auto|auto|intros x y []] |] end.
   intros inner' _ Hci. cbn [i_pos]. destruct (i_pos inner' <=? me) eqn:E; [|exact I].
   split; cbn [fst snd i_pos i_src i_max i_level i_cache set_bt iset_bt]; [|lia]. repeat split; auto.
 Qed.
